@@ -277,7 +277,7 @@ var extFieldNonNil = map[string]string{
 
 // external results that are non-nil (always / when the error result is nil)
 var extNonNil = map[string]bool{
-	"os.Open": true, "os.Create": true, "os.OpenFile": true,
+	"os.Open": true, "os.Create": true, "os.OpenFile": true, "os.CreateTemp": true,
 	"encoding/xml.NewDecoder": true, "encoding/xml.NewEncoder": true, "encoding/xml.NewTokenDecoder": true,
 	"bufio.NewScanner": true, "bufio.NewReader": true, "bufio.NewWriter": true,
 	"golang.org/x/net/html.NewTokenizer": true, "github.com/asticode/go-astits.NewDemuxer": true,
